@@ -893,13 +893,13 @@ theorem trace_accepts_sound_follow (cfg : Trace.Cfg) (L : Lin Trace.PSt) (tr : A
     simp only [Trace.final, he, Bool.false_eq_true, if_false, Bool.and_eq_true, Bool.not_eq_true'] at hfin
     exact hfin.1.1.1
 
-/-- Non-vacuity: the real-shaped two-file log `Trace.exampleLog` (the last follower's `src.close` is logged
-    after the closer's `c.close`, because `wg.Done()` runs before `stopFileReading`) is accepted; … -/
+/-- Non-vacuity: the real-shaped two-file log `Trace.exampleLog` (every follower's `src.close` is logged before
+    the closer's `c.close`, because `stopFileReading` runs before `wg.Done()`) is accepted; … -/
 example : TraceOrder.accepts (Trace.machine Trace.exampleCfg) (Trace.lin Trace.exampleLog)
     (Trace.initSt Trace.exampleCfg) Trace.exampleLog.toArray = true := by decide
 
-/-- … the log order itself is not a path (`c.close` before the `wg.Done()` of follower 0): the reordering
-    is needed; … -/
+/-- … the log order itself is not a path (follower 1 logs its `flush` while the channel of capacity 1 still
+    holds follower 0's batch – the send itself completes later): the reordering is needed; … -/
 example : replay (Trace.machine Trace.exampleCfg) (Trace.initSt Trace.exampleCfg) Trace.exampleLog = none := by
   decide
 
